@@ -28,6 +28,23 @@ MCRecallMenuSmall == { <<>>, <<Fin(<<Emit3>>)>>, <<[t |-> "call", c |-> FALSE], 
 
 MCMatchArms == { <<>>, <<Fin(<<Emit1>>)>>, <<[t |-> "check", c |-> FALSE, e |-> "panic"]>> }
 
+(* base programs for misplaced finish-only statements: each fails (Panic) on some path after
+   the point where a statement can be inserted *)
+ChkP(c) == [t |-> "check", c |-> c, e |-> "panic"]
+P(pol, rec) == [policy |-> pol, recall |-> rec]
+MCStrayBase ==
+  { P(<<>>, <<>>),                                                             \* falls off the end
+    P(<<ChkP(FALSE)>>, <<>>),
+    P(<<[t |-> "call", c |-> FALSE]>>, <<>>),
+    P(<<[t |-> "if", c |-> TRUE, a |-> <<ChkP(FALSE)>>, b |-> <<>>, els |-> FALSE]>>, <<>>),
+    P(<<[t |-> "match", n |-> 1, arms |-> <<<<>>, <<ChkP(FALSE)>>, <<>>>>]>>, <<>>),
+    P(<<[t |-> "recall"]>>, <<ChkP(FALSE)>>),                                 \* panic inside the recall block
+    P(<<ChkP(TRUE), Fin(<<Emit1>>)>>, <<>>) }                                  \* a passing program (stray + Normal)
+MCStrayOps == {Emit2, Create2, Delete1, FF}
+MCStrayOpsQuick == {Emit2, Create2}
+(* were any of them accepted, the property would fail: *)
+ASSUME \E p \in StrayPrograms : StrayBreaks(p)
+
 (* Simulation (tlc -simulate): random derivations for bounds whose exhaustive enumeration is
    too large (<= 4 statements, nesting 2: 307 704 programs).  Every step of a trace draws one
    fresh program; each random choice is bound by a singleton-set quantifier so that it is
